@@ -341,7 +341,7 @@ def lazy_eager(ctx):
                          f"factory(key) under key and return it", fnm)
 
 
-@rule("C01.cayley", props=["C01", "C20"], min_instances=1, mutants=[
+@rule("C01.cayley", props=["C01", "C20"], min_instances=2, mutants=[
     ("cayley looks the sign up transposed", ("algebra", "            if sign := self.signs[I, J]:\n                sign = '-' if sign == -1 else ''", "            if sign := self.signs[J, I]:\n                sign = '-' if sign == -1 else ''")),
     ("cayley drops the minus sign", ("algebra", "                sign = '-' if sign == -1 else ''", "                sign = '-' if sign == 1 else ''")),
     ("cayley prints zero products", ("algebra", "                cayley[eI, eJ] = f'0'", "                cayley[eI, eJ] = f'{self.bin2canon[I ^ J]}'")),
@@ -353,30 +353,37 @@ def cayley(ctx):
     fn = ctx.func(q)
     from ..symenv import default_canon2bin
     from ..products import spec_sign
-    sig = [0, 1, -1]
-    c2b = default_canon2bin(3, 0)
-    b2c = {b: n for n, b in c2b.items()}
-    alg = Obj("Algebra", {"canon2bin": c2b, "bin2canon": b2c,
-                          "signs": Obj("dict", getitem=lambda k: spec_sign(k[0], k[1], sig))})
-    it = make_interp(repo)
-    it.instance_classes["Algebra"] = "algebra.Algebra"
-    try:
-        out = it.run(q, [alg])
-    except NoValue as exc:
-        raise Unknown(q, str(exc), fn)
-    if out[0] == "raise" or not isinstance(out[1], dict):
-        raise Unknown(q, f"cayley gives {out!r}", fn)
-    want = {}
-    for eI, I in c2b.items():
-        for eJ, J in c2b.items():
-            s = spec_sign(I, J, sig)
-            want[(eI, eJ)] = "0" if s == 0 else ("-" if s < 0 else "") + b2c[I ^ J]
-    if out[1] == want:
-        ctx.ok(q, fn, entries=len(want))
-    else:
-        bad = [k for k in want if out[1].get(k) != want[k]]
-        ctx.violation(q, f"{len(bad)} Cayley entries differ from the sign table, e.g. {bad[0]}: reported {out[1].get(bad[0])!r}, "
-                         f"table gives {want[bad[0]]!r}", fn)
+    # (label, signature as the algebra keeps it, blades of the table).  The second stand-in is a LARGE algebra (d = 7, where the sign
+    # table is filled on demand) whose signature is not in the layout null-positive-negative; its table is restricted to the blades over
+    # the first three generators (+1, -1, 0), which is closed under products, so that the cell stays small.
+    cells = [("d=3, signature [0, 1, -1]", [0, 1, -1], default_canon2bin(3, 0)),
+             ("d=7, signature [1, -1, 0, 1, 1, 0, 1], blades over e1 e2 e3", [1, -1, 0, 1, 1, 0, 1],
+              {n: b for n, b in default_canon2bin(7).items() if b < 8})]
+    for label, sig, c2b in cells:
+        c = q if label.startswith("d=3") else f"{q}#{label}"
+        b2c = {b: n for n, b in c2b.items()}
+        alg = Obj("Algebra", {"canon2bin": c2b, "bin2canon": b2c, "d": len(sig), "basis": [], "signature": list(sig), "start_index": 1,
+                              "p": sum(1 for x in sig if x > 0), "q": sum(1 for x in sig if x < 0), "r": sum(1 for x in sig if x == 0),
+                              "signs": Obj("dict", getitem=lambda k, sig=sig: spec_sign(k[0], k[1], sig))})
+        it = make_interp(repo)
+        it.instance_classes["Algebra"] = "algebra.Algebra"
+        try:
+            out = it.run(q, [alg])
+        except NoValue as exc:
+            raise Unknown(c, str(exc), fn)
+        if out[0] == "raise" or not isinstance(out[1], dict):
+            raise Unknown(c, f"cayley gives {out!r}", fn)
+        want = {}
+        for eI, I in c2b.items():
+            for eJ, J in c2b.items():
+                s = spec_sign(I, J, sig)
+                want[(eI, eJ)] = "0" if s == 0 else ("-" if s < 0 else "") + b2c[I ^ J]
+        if out[1] == want:
+            ctx.ok(c, fn, entries=len(want))
+        else:
+            bad = [k for k in want if out[1].get(k) != want[k]]
+            ctx.violation(c, f"{label}: {len(bad)} Cayley entries differ from the sign table, e.g. {bad[0]}: reported {out[1].get(bad[0])!r}, "
+                             f"table gives {want[bad[0]]!r}", fn)
 
 
 def parity(spelling, canon):
